@@ -244,5 +244,5 @@ if __name__ == "__main__":
     common.run_main(lambda: solvecheck.standard_main(
         "C15", ["C15"], THEOREMS, PROFILE, 300, 12000,
         ["as C01/C14", "uniformity of random.Random.randint is assumed (P(entry i) = weight_i / total follows from walk_counts under it)",
-         "dist statements are generated at the top level of a block on scalar fields (not nested under conditions, not on list elements)"],
+         "dist statements are generated at the top level of a block on scalar fields (not nested under conditions); dist inside foreach over list elements with per-element weights is exercised by a hand-written family with an exact zero-weight oracle (foreach_dists), outside the model"],
         RULE, extra=dist_oracles, bounds=True))
